@@ -1,0 +1,164 @@
+// Verification hooks. This whole module only exists when the crate is compiled with
+// `--cfg roughenough_verif`; normal builds do not contain it.
+//
+// Each hook point calls `emit(name, fields)`. An event goes to
+//   * a per-thread tracer callback installed with `set_tracer` (in-process harnesses), and
+//   * a per-thread ndjson file `<dir>/<thread-name>.ndjson` when the environment variable
+//     `ROUGHENOUGH_VERIF_TRACE=<dir>` is set (real binaries).
+// Events carry a per-thread sequence number; nothing here orders events across threads.
+
+use std::cell::RefCell;
+use std::fmt::Write as FmtWrite;
+use std::fs::{File, OpenOptions};
+use std::io::Write;
+
+/// A field value of a hook event
+#[derive(Debug, Clone)]
+pub enum V {
+    U(u64),
+    I(i64),
+    B(bool),
+    S(String),
+}
+
+/// One hook event
+#[derive(Debug, Clone)]
+pub struct Event {
+    pub seq: u64,
+    pub thread: String,
+    pub name: &'static str,
+    pub fields: Vec<(&'static str, V)>,
+}
+
+impl Event {
+    pub fn get_u(&self, key: &str) -> Option<u64> {
+        self.fields.iter().find(|(k, _)| *k == key).and_then(|(_, v)| match v {
+            V::U(u) => Some(*u),
+            V::I(i) => Some(*i as u64),
+            _ => None,
+        })
+    }
+
+    pub fn get_s(&self, key: &str) -> Option<&str> {
+        self.fields.iter().find(|(k, _)| *k == key).and_then(|(_, v)| match v {
+            V::S(s) => Some(s.as_str()),
+            _ => None,
+        })
+    }
+
+    pub fn get_b(&self, key: &str) -> Option<bool> {
+        self.fields.iter().find(|(k, _)| *k == key).and_then(|(_, v)| match v {
+            V::B(b) => Some(*b),
+            _ => None,
+        })
+    }
+
+    pub fn to_json(&self) -> String {
+        let mut s = String::with_capacity(96);
+        let _ = write!(
+            s,
+            "{{\"t\":\"{}\",\"seq\":{},\"ev\":\"{}\"",
+            escape(&self.thread),
+            self.seq,
+            self.name
+        );
+        for (k, v) in &self.fields {
+            match v {
+                V::U(u) => {
+                    let _ = write!(s, ",\"{}\":{}", k, u);
+                }
+                V::I(i) => {
+                    let _ = write!(s, ",\"{}\":{}", k, i);
+                }
+                V::B(b) => {
+                    let _ = write!(s, ",\"{}\":{}", k, b);
+                }
+                V::S(x) => {
+                    let _ = write!(s, ",\"{}\":\"{}\"", k, escape(x));
+                }
+            }
+        }
+        s.push('}');
+        s
+    }
+}
+
+fn escape(s: &str) -> String {
+    let mut out = String::with_capacity(s.len());
+    for c in s.chars() {
+        match c {
+            '"' => out.push_str("\\\""),
+            '\\' => out.push_str("\\\\"),
+            '\n' => out.push_str("\\n"),
+            c if (c as u32) < 0x20 => {
+                let _ = write!(out, "\\u{:04x}", c as u32);
+            }
+            c => out.push(c),
+        }
+    }
+    out
+}
+
+struct ThreadState {
+    seq: u64,
+    name: String,
+    tracer: Option<Box<dyn FnMut(&Event)>>,
+    file: Option<File>,
+    file_checked: bool,
+}
+
+thread_local! {
+    static STATE: RefCell<ThreadState> = RefCell::new(ThreadState {
+        seq: 0,
+        name: String::new(),
+        tracer: None,
+        file: None,
+        file_checked: false,
+    });
+}
+
+/// Install (or remove) the tracer callback of the calling thread
+pub fn set_tracer(tracer: Option<Box<dyn FnMut(&Event)>>) {
+    STATE.with(|st| st.borrow_mut().tracer = tracer);
+}
+
+/// Emit one event from the calling thread
+pub fn emit(name: &'static str, fields: Vec<(&'static str, V)>) {
+    // the tracer is taken out while it runs so that it may itself reach code that emits
+    let (event, tracer) = STATE.with(|st| {
+        let mut st = st.borrow_mut();
+        if st.name.is_empty() {
+            st.name = std::thread::current().name().unwrap_or("unnamed").to_string();
+        }
+        if !st.file_checked {
+            st.file_checked = true;
+            if let Ok(dir) = std::env::var("ROUGHENOUGH_VERIF_TRACE") {
+                let path = format!("{}/{}.ndjson", dir, st.name);
+                st.file = OpenOptions::new().create(true).append(true).open(path).ok();
+            }
+        }
+        st.seq += 1;
+        let event = Event {
+            seq: st.seq,
+            thread: st.name.clone(),
+            name,
+            fields,
+        };
+        if let Some(f) = st.file.as_mut() {
+            let mut line = event.to_json();
+            line.push('\n');
+            let _ = f.write_all(line.as_bytes());
+        }
+        (event, st.tracer.take())
+    });
+
+    if let Some(mut t) = tracer {
+        t(&event);
+        STATE.with(|st| {
+            let mut st = st.borrow_mut();
+            if st.tracer.is_none() {
+                st.tracer = Some(t);
+            }
+        });
+    }
+}
